@@ -177,7 +177,8 @@ class Field(Validator, Parser, Writer):
       return obj._default_gfa_tag_datatype()
     else:
       if isinstance(obj, list) and\
-             (all([isinstance(v, builtins.int) for v in obj]) or
+             (all([isinstance(v, builtins.int) and
+                   not isinstance(v, builtins.bool) for v in obj]) or
               all([isinstance(v, builtins.float) for v in obj])):
         return "B"
       for k,v in gfapy.Field._default_tag_datatypes:
